@@ -209,6 +209,37 @@ func execTok(seg []Ev) []Ev {
 		bits := optBits(in["opts"])
 		e := Ev{"op": "tok", "kind": kind, "opts": optList(bits), "input": cps(input)}
 		base, oc, det := tokenize(kind, 0, input)
+		if pf, ok := in["prefix"]; ok {
+			// a stream handed over in the middle: the caller has read the prefix (a heading, say) from the scanner itself; the
+			// tokens are those of what is left of the stream
+			prefix := string(toRunes(pf))
+			e["prefix"] = cps(prefix)
+			var res []*tokenizers.Token
+			oc, det = guarded(func() {
+				sc := sio.NewStringScanner(prefix + input)
+				for range []rune(prefix) {
+					sc.Read()
+				}
+				t := newTokenizer(kind)
+				setOpts(t, 0)
+				if toBool(in["strings"]) {
+					// the ...ToStrings entry point gives the values of the same tokens
+					vals := t.TokenizeStreamToStrings(sc)
+					for _, v := range vals {
+						res = append(res, tokenizers.NewToken(tokenizers.Unknown, v, 0, 0))
+					}
+					if n := len(res); n > 0 && res[n-1].Value() == "" {
+						res[n-1] = tokenizers.NewToken(tokenizers.Eof, "", 0, 0)
+					}
+				} else {
+					res = t.TokenizeStream(sc)
+				}
+			})
+			base = [][]any{}
+			if oc == "ok" {
+				base = tokJSON(res)
+			}
+		}
 		e["base"] = base
 		e["outcome_base"] = oc
 		if oc == "ok" && bits != 0 {
